@@ -8,6 +8,7 @@ import (
 
 	"github.com/dominant-strategies/go-quai/common"
 	"github.com/dominant-strategies/go-quai/consensus/misc"
+	"github.com/dominant-strategies/go-quai/core/types"
 	"github.com/dominant-strategies/go-quai/params"
 	"pgregory.net/rapid"
 
@@ -16,42 +17,70 @@ import (
 
 // ---- reference of the prime-level repricing of conversions --------------------------------------
 //
-// c20fReprice is a transcription of the conversion section of Slice.Append (core/slice.go, prime
-// branch, "sort the newInboundEtxs based on the decreasing order of the max slips" ... "Apply the
-// new exchange rate on all the transactions") as a pure function. It uses the real helpers
-// (misc.ApplyCubicDiscount, misc.QiToQuai, misc.QuaiToQi, misc.ComputeConversionAmountInQuai);
-// only the control flow around them is re-stated. The history-level half of C20 can call it with
-// the values of a prime block to predict every conversion's outcome.
+// c20fReprice(in) is a transcription of the conversion section of Slice.Append (core/slice.go,
+// prime branch: "sort the newInboundEtxs based on the decreasing order of the max slips" ...
+// "Apply the new exchange rate on all the transactions") as a pure function of plain data. It
+// calls the real helpers (misc.ApplyCubicDiscount, misc.QiToQuai, misc.QuaiToQi); only the control
+// flow around them is re-stated. It is shared with the history-level half of C20 (c20h_*), which
+// feeds it the values of a real prime block and compares the outcome with the ETXs Append hands
+// down.
+//
+// Input (c20fBlock):
+//   Header                 the block; only what misc.QiToQuai/QuaiToQi read is used
+//                          (WorkObjectHeader: PrimeTerminusNumber, Number, Sha/ScryptDiffAndCount).
+//                          c20fEnv.header() builds one from plain numbers.
+//   PrimeNumber            header.NumberU64(PRIME_CTX) (ConversionSlipChangeBlock switch)
+//   HeaderRate             header.ExchangeRate()       (passes 1 and 2)
+//   MinerDifficulty        header.MinerDifficulty()    (all passes)
+//   KQuaiDiscount          header.KQuaiDiscount()
+//   FlowAmount             header.ConversionFlowAmount()
+//   ExchangeRateIncreasing header.ExchangeRate() > ExchangeRate() of the block MinerDifficultyWindow
+//                          prime blocks earlier (false when the block number is <= the window)
+//   NewRate                the exchange rate Append applies in the last pass
+//   Etxs                   newInboundEtxs in their order BEFORE the slip sort: per ETX Conversion
+//                          (EtxType == ConversionType), ToQi (recipient in the Qi ledger), Value
+//                          (original value), Data (ETX data; first two bytes = slip when len > 1)
+// Output: one c20fOutcome per input ETX (same indexing as Etxs): Order = position after the
+// stable sort, Reverted (ETX becomes ConversionRevert), Final (value the ETX carries afterwards:
+// destination units, or the original amount when reverted), BeforeRate (origin-ledger value after
+// the discounts of the second pass), plus the intermediate quantities. divByZero reports that
+// Append itself would divide by zero (accepted conversion volume of 0 Quai); outcomes is then nil.
 
 type c20fConv struct {
-	ToQi  bool     // Quai -> Qi (recipient in the Qi ledger); otherwise Qi -> Quai
-	Value *big.Int // amount in units of the origin ledger
-	Slip  []byte   // ETX data; the first two bytes are the sender's slip bound when len > 1
+	Conversion bool     // EtxType == ConversionType; other ETXs only take part in the sort
+	ToQi       bool     // Quai -> Qi (recipient in the Qi ledger); otherwise Qi -> Quai
+	Value      *big.Int // original value, units of the origin ledger
+	Data       []byte   // ETX data; the first two bytes are the sender's slip bound when len > 1
 }
 
 type c20fBlock struct {
-	Env                    *c20fEnv // header fields consulted by the unit helpers; Rate = header.ExchangeRate, Difficulty = header.MinerDifficulty
-	PrimeNumber            uint64   // header.NumberU64(PRIME_CTX): ConversionSlipChangeBlock
-	KQuaiDiscount          *big.Int // header.KQuaiDiscount
-	FlowAmount             *big.Int // header.ConversionFlowAmount (running average)
-	ExchangeRateIncreasing bool     // header.ExchangeRate > ExchangeRate MinerDifficultyWindow blocks ago
-	NewRate                *big.Int // the rate applied in the last pass
+	Header                 *types.WorkObject
+	PrimeNumber            uint64
+	HeaderRate             *big.Int
+	MinerDifficulty        *big.Int
+	KQuaiDiscount          *big.Int
+	FlowAmount             *big.Int
+	ExchangeRateIncreasing bool
+	NewRate                *big.Int
+	Etxs                   []c20fConv
 }
 
 type c20fOutcome struct {
-	Index        int      // position in the input slice
+	Order        int      // position after the stable sort by decreasing slip
+	Touched      bool     // a conversion with a positive value (everything else is left as it is)
 	Slip         *big.Int // clamped slip bound in 1/SlipAmountRange
 	Bound        *big.Int // original * (range - slip) / range
 	TenPercent   *big.Int // original * 10 / 100
 	Pass1Value   *big.Int // value after the discounts of the filtering pass (origin units)
 	MarkedPass1  bool     // the filtering pass set the value to zero
-	BeforeRate   *big.Int // value after the discounts of the second pass (origin units); nil when reverted in pass 1
-	AtHeaderRate *big.Int // BeforeRate converted at the header's rate (second pass)
-	Reverted     bool
-	Final        *big.Int // value the ETX carries after Append: destination units, or the original amount when reverted
-	Skipped      bool     // value <= 0: not touched by the section
+	BeforeRate   *big.Int // value after the discounts of the second pass (origin units); nil when marked in pass 1
+	AtHeaderRate *big.Int // BeforeRate converted at the header's rate (second pass); nil when marked in pass 1
+	Reverted     bool     // the ETX ends as ConversionRevert
+	Final        *big.Int // value the ETX carries after Append
 }
 
+// c20fSlipOf is the slip of a conversion as Append reads it (90 % when absent, clamped to
+// [MinSlip, MaxSlip]).
 func c20fSlipOf(data []byte) *big.Int {
 	slip := new(big.Int).Set(params.MaxSlip)
 	if len(data) > 1 {
@@ -66,17 +95,23 @@ func c20fSlipOf(data []byte) *big.Int {
 	return slip
 }
 
-// c20fReprice returns one outcome per input conversion and whether Append would have divided by
-// zero (a conversion volume of zero Quai with a positive value), in which case outcomes is nil.
-func c20fReprice(b *c20fBlock, in []c20fConv) (outcomes []*c20fOutcome, divByZero bool) {
-	h := b.Env.header()
-	rate, diff := b.Env.Rate, b.Env.Difficulty
+func c20fReprice(b *c20fBlock) (outcomes []c20fOutcome, divByZero bool) {
+	h, rate, diff, in := b.Header, b.HeaderRate, b.MinerDifficulty, b.Etxs
+	sortKey := func(c c20fConv) *big.Int {
+		if c.Conversion {
+			return c20fSlipOf(c.Data)
+		}
+		return new(big.Int)
+	}
 	order := make([]int, len(in))
 	for i := range order {
 		order[i] = i
 	}
-	sort.SliceStable(order, func(i, j int) bool { return c20fSlipOf(in[order[i]].Slip).Cmp(c20fSlipOf(in[order[j]].Slip)) > 0 })
-	out := make([]*c20fOutcome, len(in))
+	sort.SliceStable(order, func(i, j int) bool { return sortKey(in[order[i]]).Cmp(sortKey(in[order[j]])) > 0 })
+	out := make([]c20fOutcome, len(in))
+	for pos, idx := range order {
+		out[idx].Order = pos
+	}
 	cubic := func(volume *big.Int) *big.Int {
 		d := misc.ApplyCubicDiscount(b.FlowAmount, volume)
 		if b.PrimeNumber > params.ConversionSlipChangeBlock {
@@ -98,20 +133,19 @@ func c20fReprice(b *c20fBlock, in []c20fConv) (outcomes []*c20fOutcome, divByZer
 		}
 		return misc.QiToQuai(h, rate, diff, c.Value)
 	}
-	// first pass: filter by slip bound
+	// first pass (sorted order): filter by the slip bound against the cumulative volume
 	actual := new(big.Int)
 	live := make([]bool, len(in))
 	for _, idx := range order {
 		c := in[idx]
-		o := &c20fOutcome{Index: idx}
-		out[idx] = o
-		if c.Value.Sign() <= 0 {
-			o.Skipped = true
+		o := &out[idx]
+		if !c.Conversion || c.Value.Sign() <= 0 {
 			continue
 		}
+		o.Touched = true
 		original := c.Value
 		temp := new(big.Int).Add(actual, inQuai(c))
-		o.Slip = c20fSlipOf(c.Slip)
+		o.Slip = c20fSlipOf(c.Data)
 		discounted := cubic(temp)
 		if temp.Sign() == 0 {
 			return nil, true
@@ -136,7 +170,7 @@ func c20fReprice(b *c20fBlock, in []c20fConv) (outcomes []*c20fOutcome, divByZer
 		}
 	}
 	// second pass: one discount for the whole accepted volume (ComputeConversionAmountInQuai over
-	// the ETXs whose value is still positive)
+	// the conversions whose value is still positive)
 	total := new(big.Int)
 	for idx, c := range in {
 		if live[idx] {
@@ -148,7 +182,7 @@ func c20fReprice(b *c20fBlock, in []c20fConv) (outcomes []*c20fOutcome, divByZer
 		if !live[idx] {
 			continue
 		}
-		o := out[idx]
+		o := &out[idx]
 		if total.Sign() == 0 {
 			return nil, true
 		}
@@ -170,25 +204,23 @@ func c20fReprice(b *c20fBlock, in []c20fConv) (outcomes []*c20fOutcome, divByZer
 	}
 	// third pass: a zero value means "revert"; everything else is converted at the new rate
 	for idx, c := range in {
-		o := out[idx]
-		if o.Skipped {
-			o.Final = new(big.Int).Set(c.Value)
-			if c.Value.Sign() < 0 {
-				o.Final = new(big.Int)
-			} else {
-				// a zero-valued conversion is turned into a revert of zero
-				o.Reverted = true
-			}
-			continue
-		}
-		if !live[idx] || o.AtHeaderRate.Sign() == 0 {
+		o := &out[idx]
+		switch {
+		case !c.Conversion:
+			o.Final = c.Value
+		case c.Value.Sign() < 0:
+			o.Final = new(big.Int)
+		case c.Value.Sign() == 0:
+			// Append turns a zero-valued conversion into a revert whose value is the (unset)
+			// original; no producer emits such an ETX
+			o.Reverted = true
+			o.Final = nil
+		case !live[idx] || o.AtHeaderRate.Sign() == 0:
 			o.Reverted = true
 			o.Final = new(big.Int).Set(c.Value)
-			continue
-		}
-		if c.ToQi {
+		case c.ToQi:
 			o.Final = misc.QuaiToQi(h, b.NewRate, diff, o.BeforeRate)
-		} else {
+		default:
 			o.Final = misc.QiToQuai(h, b.NewRate, diff, o.BeforeRate)
 		}
 	}
@@ -233,7 +265,7 @@ func TestC20F_Reprice(t *testing.T) {
 	rapid.Check(t, func(t *rapid.T) {
 		env := c20fGenEnv(t)
 		// rates of zero make every amount convert through the clamped rewards; keep a share of them
-		b := &c20fBlock{Env: env}
+		b := &c20fBlock{Header: env.header(), HeaderRate: env.Rate, MinerDifficulty: env.Difficulty}
 		b.PrimeNumber = rapid.SampledFrom([]uint64{params.ControllerKickInBlock + 1, params.ConversionSlipChangeBlock - 1, params.ConversionSlipChangeBlock, params.ConversionSlipChangeBlock + 1,
 			params.KQuaiChangeBlock + 5, params.KawPowForkBlock + 5, params.ShaEquivalentDifficultyForkBlock + 5}).Draw(t, "primeNumber")
 		b.KQuaiDiscount = big.NewInt(int64(rapid.SampledFrom([]int{0, 1, 100, 500, 5000, 50000, 99999, 100000}).Draw(t, "kQuaiDiscount")))
@@ -253,7 +285,7 @@ func TestC20F_Reprice(t *testing.T) {
 		n := rapid.IntRange(1, 8).Draw(t, "nConversions")
 		convs := make([]c20fConv, n)
 		for i := range convs {
-			c := c20fConv{ToQi: rapid.Bool().Draw(t, "toQi"), Slip: c20fGenSlip(t)}
+			c := c20fConv{Conversion: true, ToQi: rapid.Bool().Draw(t, "toQi"), Data: c20fGenSlip(t)}
 			switch rapid.IntRange(0, 5).Draw(t, "valueKind") {
 			case 0:
 				c.Value = c20fGenAmount(t, "value")
@@ -276,12 +308,13 @@ func TestC20F_Reprice(t *testing.T) {
 		dump["prime_number"], dump["kquai_discount"], dump["flow_amount"], dump["rate_increasing"], dump["new_rate"] = b.PrimeNumber, b.KQuaiDiscount.String(), b.FlowAmount.String(), b.ExchangeRateIncreasing, b.NewRate.String()
 		var cl []string
 		for _, c := range convs {
-			cl = append(cl, fmt.Sprintf("toQi=%v value=%v slipData=%x", c.ToQi, c.Value, c.Slip))
+			cl = append(cl, fmt.Sprintf("toQi=%v value=%v data=%x", c.ToQi, c.Value, c.Data))
 		}
 		dump["conversions"] = cl
 		fail := func(fp, msg string) bool { return stats.Violation(t, c20fRepricePart, fp, msg, dump) }
 
-		outs, divZero := c20fReprice(b, convs)
+		b.Etxs = convs
+		outs, divZero := c20fReprice(b)
 		preFork := b.PrimeNumber <= params.ConversionSlipChangeBlock
 		labels := map[string]bool{}
 		if preFork {
@@ -298,7 +331,7 @@ func TestC20F_Reprice(t *testing.T) {
 		reverts, credits, both := 0, 0, map[bool]bool{}
 		for i, o := range outs {
 			c := convs[i]
-			if o.Skipped {
+			if !o.Touched {
 				continue
 			}
 			both[c.ToQi] = true
